@@ -103,6 +103,13 @@ def check(ctx):
     from .request_model import key_rule as _key_rule, request_traces as _rtr
     if _rtr(prog) is not None:
         _key_rule(ctx, R2, _rtr(prog))
+    # what is validated is the WHOLE answer: ValidHttpResponse.body is response.text() — a body assembled chunk by chunk with the
+    # transport error swallowed would let a truncated chain through (its leaf still parses and matches); shared with C02.R3
+    fr_ = prog.async_body("acmed::http::ValidHttpResponse::from_response")
+    for i_, st_ in agg_assigns(fr_, "acmed::http::ValidHttpResponse"):
+        sl_ = origins(fr_, st_["rv"]["ops"][st_["rv"]["fields"].index("body")])
+        ctx.require(R2, any("Response::text" in (x.name or "") or "text::{closure" in (x.name or "") for x in sl_.calls), where(fr_, i_),
+                    "ValidHttpResponse.body = response.text() (the complete body or an error)", ["from_response", "body-text"])
     fp = b.calls_to(FROMPEM)
     ctx.floor(R2, "X509Certificate::from_pem on the downloaded body", len(fp), 1)
     fp_ok = [e for c in fp for e in ok_edges_of(b, c)]
